@@ -482,6 +482,37 @@ func (c *Ctx) opCases(fn *ssa.Function, typ, field string) map[int64][]edge {
 			if c.isFieldLoadOf(og, "query", typ, field) {
 				isField = true
 			}
+			// a selector function given the operator as a parameter (predicateOf(c.OpType)): every library call
+			// site passes the field
+			if p, isP := og.(*ssa.Parameter); isP && p.Parent() == fn {
+				idx := -1
+				for i, q := range fn.Params {
+					if q == p {
+						idx = i
+					}
+				}
+				sites := c.staticCallers(fn)
+				all := idx >= 0 && len(sites) > 0
+				for _, cs := range sites {
+					args := cs.Common().Args
+					if idx >= len(args) {
+						all = false
+						continue
+					}
+					okArg := false
+					for _, ao := range origins(args[idx]) {
+						if c.isFieldLoadOf(ao, "query", typ, field) {
+							okArg = true
+						}
+					}
+					if !okArg {
+						all = false
+					}
+				}
+				if all {
+					isField = true
+				}
+			}
 		}
 		if !isField {
 			return
@@ -490,8 +521,37 @@ func (c *Ctx) opCases(fn *ssa.Function, typ, field string) map[int64][]edge {
 			out[k] = append(out[k], e)
 		}
 	})
+	// the cases of a selector function the operator is handed to count for fn as well
+	if !opCasesBusy[fn] {
+		opCasesBusy[fn] = true
+		allCalls(fn, func(ci ssa.CallInstruction) {
+			g := staticCallee(ci)
+			if g == nil || !c.IsLib(c.declared(g)) || c.declared(g) == fn {
+				return
+			}
+			passes := false
+			for _, a := range ci.Common().Args {
+				for _, ao := range origins(a) {
+					if c.isFieldLoadOf(ao, "query", typ, field) {
+						passes = true
+					}
+				}
+			}
+			if !passes {
+				return
+			}
+			for k, es := range c.opCases(c.declared(g), typ, field) {
+				if len(out[k]) == 0 {
+					out[k] = append(out[k], es...)
+				}
+			}
+		})
+		delete(opCasesBusy, fn)
+	}
 	return out
 }
+
+var opCasesBusy = map[*ssa.Function]bool{}
 
 func ruleOPS1(c *Ctx) []Ob {
 	o := newObs(c, "OPS1")
@@ -636,8 +696,10 @@ func ruleOPS2(c *Ctx) []Ob {
 		}
 		for _, e := range cases[k] {
 			body := e.to()
-			tas = append(tas, assertsIn(sat, func(b *ssa.BasicBlock) bool { return b == body || body.Dominates(b) })...)
-			for _, b := range sat.Blocks {
+			// the case may live in a selector function the operator is handed to
+			host := body.Parent()
+			tas = append(tas, assertsIn(host, func(b *ssa.BasicBlock) bool { return b == body || body.Dominates(b) })...)
+			for _, b := range host.Blocks {
 				if !(b == body || body.Dominates(b)) {
 					continue
 				}
@@ -647,8 +709,37 @@ func ruleOPS2(c *Ctx) []Ob {
 							where = append(where, g)
 						}
 					}
+					// an evaluator handed back as a function value
+					for _, op := range in.Operands(nil) {
+						if op == nil || *op == nil {
+							continue
+						}
+						for _, og := range origins(*op) {
+							if g := closureFn(og); g != nil && c.IsLib(c.declared(g)) && c.pkgRel(g) == "query" {
+								if _, isCall := in.(*ssa.Call); !isCall || in.(*ssa.Call).Common().Value != *op {
+									where = append(where, c.declared(g))
+									for h := range c.staticReach(c.declared(g)) {
+										if h != g && c.pkgRel(h) == "query" {
+											where = append(where, h)
+										}
+									}
+								}
+							}
+						}
+					}
 				}
 			}
+		}
+		{
+			seenW := map[*ssa.Function]bool{}
+			var uniq []*ssa.Function
+			for _, g := range where {
+				if !seenW[g] {
+					seenW[g] = true
+					uniq = append(uniq, g)
+				}
+			}
+			where = uniq
 		}
 		for _, g := range where {
 			tas = append(tas, assertsIn(g, func(*ssa.BasicBlock) bool { return true })...)
